@@ -21,7 +21,9 @@ Positions == {"from", "join", "in", "cmp", "select-item", "cte", "insert-select"
               \* a scalar subquery as an ORDER BY / GROUP BY item (bare or as a function argument), as the value of SET and of DO UPDATE SET
               "orderby-item", "groupby-item", "orderby-function-arg", "set-value", "do-update-value",
               \* the right operand of arithmetic (a query on the LEFT of * + - is a set operation by the builder's operator overloads)
-              "arith-right", "arith-sub-right", "arith-div-right"}
+              "arith-right", "arith-sub-right", "arith-div-right",
+              \* third operand of a set operation whose second operand opted out of the brackets (wrap_set_operation_queries=False): the BASE decides for all
+              "setop-operand-after-optout"}
 Embed == [p \in Positions |->
             CASE p \in {"from", "join", "from-joined"} -> [paren |-> TRUE, alias |-> TRUE]
               [] p \in {"select-item", "select-item-joined"} -> [paren |-> TRUE, alias |-> TRUE]
@@ -40,7 +42,7 @@ EmbedsVerbatim(outer, pre, inner, suf) == Norm(outer) = Norm(pre \o inner \o suf
 \* the brackets / alias the position really added (read off the benign rendering) agree with Embed
 FrameOK(pre, suf, pos, wraps, aliasTok) ==
     LET e == Embed[pos]
-        paren == IF pos \in {"setop-base", "setop-operand"} THEN wraps ELSE e.paren
+        paren == IF pos \in {"setop-base", "setop-operand", "setop-operand-after-optout"} THEN wraps ELSE e.paren
         lastPre == IF pre = <<>> THEN "" ELSE pre[Len(pre)].v
         firstSuf == IF suf = <<>> THEN "" ELSE suf[1].v
     IN /\ paren = (lastPre = "(" /\ firstSuf = ")")
